@@ -165,6 +165,7 @@ class Module:
         self.normalized = normalize.normalize(self.tree, name, alpha.load_reference())
         self.restored_locals = []
         alpha.restore_local_names(self.tree, name, self.restored_locals)
+        self.normalized["explaining_locals"] = normalize.inline_new_locals(self.tree, name, alpha.load_reference(), alpha.functions_with_qualnames)
         set_parents(self.tree)
         self.classes = {}
         self.functions = {}
